@@ -27,7 +27,7 @@ CHECKS = {
             "Decides the agreement of writer and reader grammars, not the value-level round trip: each writer's shape (both forms, nine scale names) read off its templates drives Epoch::from_str on every path to exactly one maybe_from_gregorian(field k = digit run k, written scale) + zero offset; the statement's input grammar (0-9 fraction digits x Z/+hh:mm/-hh:mm x optional suffix) yields ns = frac*10^(9-d), shift = -/+(hh:mm), scale = suffix|UTC; TimeScale Display->FromStr identity; serde delegation; JD/MJD/SEC dispatch table (27 cells) and day-count constructors relative to each scale's reference epoch. Not decided: compute_gregorian/maybe_from_gregorian being inverse for every instant, digit-level lexical/fmt correctness, float resolution.",
             "3.C10"),
     "C13": ("panic-site reachability by abstract interpretation over MIR: string models with panic semantics, loops abstracted by havoc + Houdini-inferred inductive invariants, assume/guarantee contracts; SCC termination rule",
-            "Every explicit panic, MIR Assert (bounds, overflow, division), unwrap/expect, str/slice indexing and out-of-range shift reachable from the ten string-parsing entry points is unreachable on every abstract path for an arbitrary UTF-8 input (only its length, known char boundaries and first char are tracked); every loop in the cone is driven by a finite iterator; out-of-range fields are rejected through Token::value_ok's table and dates are built only through maybe_from_gregorian.",
+            "Every explicit panic, MIR Assert (bounds, overflow, division), unwrap/expect, str/slice indexing and out-of-range shift reachable from the ten string-parsing entry points is unreachable on every abstract path for an arbitrary UTF-8 input (only its length, known char boundaries and first char are tracked); every loop in the cone is driven by a finite iterator; out-of-range fields are rejected through Token::value_ok's table and dates are built only through maybe_from_gregorian, which is itself interpreted over every i32 year (no panic on any path).",
             "3.C13"),
     "C15": ("write-set (frame) analysis + decision tables by abstract interpretation with exact Duration algebra",
             "next() writes only cur; item = start + cur_before*step (product from the counter) in start's scale; cur += 1 on Some, unchanged on None; None iff cur*step >= span (exclusive) / > span (inclusive); constructors set duration = end - start, cur = 0, incl.",
@@ -48,7 +48,7 @@ CHECKS = {
             "Built-in table equals leap-seconds.list and naif0012 row for row; look-up returns the last eligible row at or before the count (all 43 intervals, both flag values); conversions pass iers_only = true; UTC->TAI adds / TAI->UTC subtracts; look-up key domain; exact threshold comparison; file provider: both providers' next_back interpreted (None iff pos == len, else data[len-pos-1], pos+1), one generic look-up body for both, parser idioms (white-space-collapsing tokenizer, columns 0 and 1, '#' lines skipped, rows marked announced).",
             "3.C06"),
     "C08": ("region-containment proof per path partition (abstract interpretation + Fourier-Motzkin), table agreement, base-case/inductive-step analysis of the year loop",
-            "is_gregorian_valid accepts only inside / rejects only outside the statement's region (month lengths, 4/100/400 rule, leap-second instants from the IERS rows); tables; maybe_from_gregorian = 365(y-1900) d +/- one day per leap loop-year + cumulative days + time of day - scale offset, Err on invalid input, no panic.",
+            "is_gregorian_valid accepts only inside / rejects only outside the statement's region (month lengths, 4/100/400 rule, leap-second instants from the IERS rows); tables; maybe_from_gregorian = 365(y-1900) d +/- one day per leap loop-year + cumulative days + time of day - scale offset (or, for a loop-free constructor, the exact day number over the Euclidean quotients of y-1), Err on invalid input; no panic, wrap or lossy cast for any i32 year (R4, leap-day loops abstracted).",
             "3.C08"),
     "C07": ("constant agreement with the NAIF kernel file + expression-DAG shape comparison (abstract interpretation, sin uninterpreted) + operand-flow/sign rules + static error budget (interval, derivative and rounding-error analysis of the closed-form trees)",
             "NAIF/TDB constants equal the kernel's and the statement's; delta_et_tai and inner_g are exactly the closed forms as expression DAGs; both directions of ET and TDB apply the same correction with opposite signs, mirrored 32.184 s shift and J2000 offset, evaluated at the epoch's own seconds plus a bounded offset (interval evaluation of the refinement loop). The 30 ns / 20 ns / 100 ns clauses are decided as a static error budget (R3): Lipschitz constant, float evaluation error (rounding-error analysis, sin assumed accurate to 2^-50) and amplitude of the closed-form trees + evaluation-point offsets + to_seconds rounding (C18.R6) + ns truncation (C18.R2) give 11.8 ns <= 30 ns, 11.8 / 1.0 ns <= 20 ns round trip, and a 99 ns margin for order beyond 100 ns, over +/-10 000 years. What the refinement iteration converges to is not examined (only how far it can move the evaluation point).",
@@ -93,7 +93,10 @@ def gen():
                 "level_note": "Trusted: rustc's MIR/const-eval for the pinned nightly, hv/models.py summaries of core primitives, "
                               "hv/lin.py. Analysed configuration: default features (std, serde), debug assertions + overflow "
                               "checks on; features ut1/python, cfg(kani) and no_std are not analysed. Obligations are proved by "
-                              "over-approximation: a behaviour-preserving rewrite outside the domains' reach would be reported.",
+                              "over-approximation: a behaviour-preserving rewrite outside the domains' reach would be reported. "
+                              "Rule <ID>.R0 (assumption audit): the rules of the properties this check leans on (bin/check ASSUMES) are "
+                              "re-run on the same fact base and their undischarged obligations, other than those properties' recorded "
+                              "known findings, are reported here too.",
                 "technique": tech,
             })
     na = []
